@@ -201,3 +201,30 @@ def member_families(run):
     run.components.append({'component': 'member families', 'classes': len(names), 'families': nfam})
     run.assume('beyond the decidable member families (DESIGN.md B.3) validity of a class condition for EVERY member is the cited interpolation theorem (assumed)',
                'LMIs are checked as w^T T w >= 0 for matrices of size <= 3 samples (stated bound)')
+
+
+# ------------------------------------------------------------------------------------------ C08
+def primitive_steps(run):
+    from . import steps
+    obs = steps.check_steps()
+    for o in obs:
+        if o.verdict == 'error':
+            run.obligations += 1
+            run.undecide(o.oid, 'contract-level execution failed: ' + o.detail[:400])
+            continue
+        run.count(o.oid, o.verdict == 'unsat', 'z3 (QF_NRA) on contract-level execution', o.seconds, 'property', o.verdict,
+                  sample={'obligation': o.oid, 'verdict': 'discharged' if o.verdict == 'unsat' else o.verdict, 'detail': o.detail[:160]})
+        if o.verdict == 'unsat':
+            continue
+        if o.verdict == 'unknown':
+            run.undecide(o.oid, o.detail[:300])
+            continue
+        rep = steps.replay_step(o.signature.get('step', ''))
+        run.violation(o.oid, o.detail, replay=dict(kind='step', model=o.model, detail=o.detail, **rep), signature=o.signature,
+                      reproduced=rep.get('reproduced', False))
+    run.components.append({'component': 'contract-level execution of the 8 primitive steps', 'obligations': len(obs)})
+    run.trust('contract stand-ins (sym/standins.py) transcribe the operator contracts proved under C06',
+              'documented step relations transcribed by hand in sym/steps.py from the step doc-strings (primal-dual gap, epsilon-subdifferential)')
+    run.assume('"running the real operation satisfies what the step recorded": the recorded relation IS the optimality condition defining the step '
+               '(prox, line search, linear minimisation oracle); taken as the definition, not proved',
+               'exact_linesearch_step is executed for 0, 1 and 3 directions (the only loop in the steps)')
